@@ -66,6 +66,13 @@ func TestPrecedence(t *testing.T) {
 	}
 }
 
+// instance packages written by the user (HCons plumbing only): gombok takes the HList representation
+func TestUserPackage(t *testing.T) {
+	if turn(0) {
+		gomspec.UserPackageCheck(t, "derive/user-instance-package", kit.Pick(2, 24))
+	}
+}
+
 func TestKnown(t *testing.T) {
 	gomspec.KnownD16Check(t)
 	gomspec.KnownCloneNamedCheck(t)
